@@ -315,7 +315,7 @@ def cases(tier, seed):
     if tier == "thorough":
         cs.append(case("three-B1B2B3-E2", [1, 2, 3], 2, 2, 1, [3, 1], 2, False))
         cs.append(case("sort-B2B1-E1-5rows", [2, 1], 1, 1, 1, [3], 1, True))
-        cs.append(case("xgb-lent-history-E2", [1], 2, 1, 1, [2, 2, 2], 1, False, xgb=True))
+        cs.append(case("xgb-lent-history-E2", [1], 2, 1, 1, [2, 2], 1, False, xgb=True))
         cs.append(case("one-B3-E3-4batches", [3], 3, 2, 2, [4], 1, False))
     return cs
 
